@@ -15,8 +15,8 @@ package symgo
 
 import (
 	"fmt"
-	"os"
 	"golang.org/x/tools/go/ssa"
+	"os"
 )
 
 // specBail aborts the innermost speculation.
